@@ -24,9 +24,9 @@ LEVEL_TEXT = ("For each sampled scenario (seeded initial attribute set, terminal
               "positions per scenario; scenarios are sampled.")
 LEVEL_NOTE = ("Trusted: SimTTY's termios model (CPython's tcgetattr/tcsetattr representation "
               "rules, TCSAFLUSH). Faults are single and transient and never pre-empt the effect "
-              "of the restoring tcsetattr itself nor land inside draw()'s own clean-up writes "
-              "(the property says 'before its own clean-up starts'). Signals are modelled as "
-              "exceptions at seam boundaries.")
+              "of the restoring tcsetattr itself; every other call - draw()'s own clean-up "
+              "writes and the caller's render-data finalizer included - is a fault position. "
+              "Signals are modelled as exceptions at seam boundaries.")
 TIERS = {
     "quick": {"runs": 320, "max_ops": 4},
     "thorough": {"runs": 9000, "max_ops": 6, "wall_cap": 1500},
@@ -51,7 +51,7 @@ COMPONENTS = {
 }
 ASSUMPTIONS = [
     "a signal is delivered at a system-call boundary (before the call's effect or right after it)",
-    "one transient fault per run; no fault inside the operation's own clean-up",
+    "one transient fault per run; the restoring tcsetattr call itself is never pre-empted",
 ]
 
 KINDS_ERR = {
